@@ -39,6 +39,42 @@ func checkC18(c *Check) {
 	if err != nil {
 		c.Bad("accessors:prove-pass", "?", err.Error())
 	}
+	// the accessors dereference the wrapped *http.Request unconditionally: every Request wrapper that is built
+	// holds the constructor's own parameter (net/http's request) or a value tested against nil — a value taken
+	// from the injector may be a typed nil
+	{
+		n := 0
+		for _, fn := range p.Funcs() {
+			if fn.Pkg != p.SSA["flamego"] {
+				continue
+			}
+			allInstrs(fn, func(in ssa.Instruction) {
+				st, isSt := in.(*ssa.Store)
+				if !isSt {
+					return
+				}
+				fa, isFA := st.Addr.(*ssa.FieldAddr)
+				if !isFA || namedName(derefT(fa.X.Type())) != "Request" || fieldOf(fa) == nil || fieldOf(fa).Name() != "Request" || !fieldOf(fa).Embedded() {
+					return
+				}
+				n++
+				key := p.FuncKey(fn) + ":wrapped-request"
+				if _, isParam := strip(st.Val).(*ssa.Parameter); isParam {
+					c.OK(key, p.Pos(st.Pos()), "the wrapper holds the constructor's own request parameter", 1)
+					return
+				}
+				nonNil := edgesWhere(fn, cCmp(token.EQL, vIs(st.Val), vNil), false)
+				if g, _ := guardedBy(fn, nonNil, isInstr(st)); g && len(nonNil) > 0 {
+					c.OK(key, p.Pos(st.Pos()), "the wrapped request is tested against nil before it is stored", 1)
+					return
+				}
+				c.Bad(key, p.Pos(st.Pos()), "a Request wrapper is built around a value that may be nil (e.g. a typed nil taken from the injector): every Query*/Cookie accessor dereferences it and panics")
+			})
+		}
+		if n == 0 {
+			c.Undecided("flamego.Request:wrapped-request", "request.go", "no construction of the Request wrapper found")
+		}
+	}
 	unp := map[*ssa.Function]int{}
 	tot := map[*ssa.Function]int{}
 	for _, s := range sites {
